@@ -343,12 +343,44 @@ fn filters_scoped(op: &LO, out: &mut Vec<(String, Vec<String>, BTreeMap<String, 
 }
 
 /// Canonical description of what filter push-down did, coarse enough to name one root cause:
+///  * `renamed_by_with` — a filter was moved below the WITH that renames a variable it reads;
 ///  * `scope=unbound`   — a filter now sits where a variable it reads is not bound;
 ///  * `scope=ambiguous` — a filter moved although a variable it reads is bound in several places;
 ///  * `onto=Filter`     — a filter now sits directly on another filter;
 ///  * `vars=<opt|edge|value|node>` otherwise — the most delicate kind of variable the moved
 ///    filter reads (opt = bound on the optional side of a left join, may be NULL).
+/// A filter that sat on a WITH projection and read a name that the projection introduces by
+/// renaming a variable (`WITH b AS a`, `WITH a AS x`, swaps) no longer sits on that projection:
+/// it was moved below the rename without rewriting the name.
+fn moved_through_rename(before: &LO, after: &LogicalPlan) -> bool {
+    fn on_project(op: &LO, pred: &str) -> bool {
+        if let LO::Filter(f) = op {
+            if format!("{:?}", f.predicate) == pred && matches!(f.input.as_ref(), LO::Project(_)) {
+                return true;
+            }
+        }
+        op_children(op).into_iter().any(|c| on_project(c, pred))
+    }
+    if let LO::Filter(f) = before {
+        if let LO::Project(p) = f.input.as_ref() {
+            let renames: Vec<&String> = p.projections.iter().filter_map(|x| match (&x.expression, &x.alias) {
+                (LE::Variable(v), Some(a)) if v != a => Some(a),
+                _ => None,
+            }).collect();
+            let mut vars = Vec::new();
+            expr_vars(&f.predicate, &mut vars);
+            if vars.iter().any(|v| renames.contains(&v)) && !on_project(&after.root, &format!("{:?}", f.predicate)) {
+                return true;
+            }
+        }
+    }
+    op_children(before).into_iter().any(|c| moved_through_rename(c, after))
+}
+
 fn moved_filters(before: &LogicalPlan, after: &LogicalPlan) -> String {
+    if moved_through_rename(&before.root, after) {
+        return "renamed_by_with".into();
+    }
     let mut kinds = BTreeMap::new();
     var_kinds(&before.root, false, &mut kinds);
     let (mut a, mut b) = (Vec::new(), Vec::new());
@@ -403,7 +435,7 @@ fn moved_filters(before: &LogicalPlan, after: &LogicalPlan) -> String {
 fn coarse_kind(what: &str, kind: &str) -> String {
     // a filter evaluated in the wrong scope can do anything to the rows, including turning an
     // error into rows or the reverse: one class
-    if (what.contains("scope=") || what.contains("vars=opt")) && !kind.starts_with("panic@") && !kind.starts_with("baseline_panic@") {
+    if (what.contains("scope=") || what.contains("vars=opt") || what == "renamed_by_with" || what == "expand_from_null") && !kind.starts_with("panic@") && !kind.starts_with("baseline_panic@") {
         "differs".into()
     } else {
         kind.to_string()
@@ -459,13 +491,57 @@ fn directed() -> Vec<(Lang, &'static str, GraphSpec)> {
         ),
         // a variable bound on both sides of the join the filter is pushed into
         (Lang::Gql, "MATCH (a) MATCH (a), (b) WHERE a.z = 0.0 RETURN a.uid AS c1", dgraph(&[&[], &[("z", f(0.0))]], &[])),
+        // ---- WITH renames followed by WHERE on the new names (the filter must stay above the
+        // projection: below it the name means another binding or nothing); the graph gives the
+        // two ends of every edge different k, and edges their own w
+    ]
+    .into_iter()
+    .chain(rename_family())
+    .chain(vec![
         // a predicate over an OPTIONAL MATCH variable pushed into the other join side
         (
             Lang::Gql,
             "MATCH (a) OPTIONAL MATCH (a)-[r]->(b) MATCH (a) WHERE NOT (r.w = 0 AND a.w >= 9) RETURN a.uid AS c1",
             dgraph(&[&[("w", f(0.0))], &[]], &[(0, 1, "T1", &[])]),
         ),
-    ]
+    ])
+    .collect()
+}
+
+fn rename_family() -> Vec<(Lang, &'static str, GraphSpec)> {
+    let i = Value::Int64;
+    let g = dgraph(
+        &[&[("k", i(1)), ("w", i(9))], &[("k", i(5)), ("w", i(2))], &[("k", i(3)), ("w", i(7))], &[("k", i(8))]],
+        &[(0, 1, "T0", &[("w", i(9))]), (1, 2, "T0", &[("w", i(2))]), (2, 3, "T1", &[("w", i(6))]), (0, 2, "T0", &[("w", i(4))]), (3, 0, "T1", &[("w", i(1))])],
+    );
+    const TEXTS: &[&str] = &[
+        // fresh name
+        "MATCH (a)-[r]->(b) WITH a AS x WHERE x.k > 2 RETURN x.uid AS c1",
+        "MATCH (a)-[r]->(b) WITH a AS x, b WHERE x.k > 2 RETURN x.uid AS c1, b.uid AS c2",
+        // shadowing an existing name
+        "MATCH (a)-[r]->(b) WITH b AS a WHERE a.k > 2 RETURN a.uid AS c1",
+        "MATCH (a)-[r]->(b) WITH b AS a WHERE a.k < 4 RETURN a.k AS c1",
+        // swapping two names
+        "MATCH (a)-[r]->(b) WITH a AS b, b AS a WHERE a.k > 2 RETURN a.uid AS c1, b.uid AS c2",
+        "MATCH (a)-[r]->(b) WITH b AS a, a AS b WHERE b.k = 1 RETURN a.uid AS c1, b.uid AS c2",
+        // renaming an edge variable
+        "MATCH (a)-[r]->(b) WITH r AS e, a WHERE e.w > 3 RETURN a.uid AS c1",
+        "MATCH (a)-[r]->(b)-[s]->(c) WITH s AS r, a WHERE r.w > 3 RETURN a.uid AS c1",
+        // rename and property alias mixed
+        "MATCH (a)-[r]->(b) WITH b AS a, b.w AS bw WHERE a.k > 2 RETURN a.uid AS c1, bw AS c2",
+        "MATCH (a)-[r]->(b) WITH a AS x, a.k AS ak, b WHERE x.k > 2 AND b.k > 2 RETURN x.uid AS c1, ak AS c2, b.uid AS c3",
+        // two hops
+        "MATCH (a)-[r]->(b)-[s]->(c) WITH c AS a, b WHERE a.k > 2 RETURN a.uid AS c1, b.uid AS c2",
+        "MATCH (a)-[r]->(b)-[s]->(c) WITH a AS c, c AS a, b WHERE a.k > 4 RETURN a.uid AS c1, b.uid AS c2, c.uid AS c3",
+        "MATCH (a)-[r]->(b)-[s]->(c) WITH b AS x, c WHERE x.k >= 3 AND c.k > 3 RETURN x.uid AS c1, c.uid AS c2",
+    ];
+    let mut v = Vec::new();
+    for t in TEXTS {
+        for lang in [Lang::Gql, Lang::Cypher] {
+            v.push((lang, *t, g.clone()));
+        }
+    }
+    v
 }
 
 fn run_directed(rep: &mut Report) {
@@ -680,6 +756,14 @@ pub fn run(tier: Tier, seed: u64) -> ! {
         if q.mutation.is_some() {
             rep.count("plans.mutating", 1);
         }
+        if let Some(w) = &q.with {
+            if w.items.iter().any(|(e, a)| matches!(e, qgen::Expr::Var(v) if v != a)) {
+                rep.count("plans.with_rename", 1);
+                if w.filter.is_some() {
+                    rep.count("plans.with_rename_then_where", 1);
+                }
+            }
+        }
         let text = q.text();
         let run = run_case(&g, q.mutation.is_some(), &plan, &configs);
         rep.count("configurations_executed", run.runs.len() as u64);
@@ -759,11 +843,11 @@ pub fn run(tier: Tier, seed: u64) -> ! {
                 _ => q2.skeleton(),
             };
             // an expand whose source is the NULL of an unmatched OPTIONAL MATCH raises an error;
-            // whether rows reach it depends on where the filter sits (C09-F3), whatever the filter reads
+            // whether rows reach it depends on where the filter sits (C09-F5), whatever the filter reads
             let null_source = run2.as_ref().is_some_and(|r| {
                 [&r.base, &r.runs[0].3].into_iter().any(|o| matches!(o, Outcome::Error(e) if e.contains("Expected node ID in source column")))
             });
-            let what = if null_source && rule == "filter_pushdown" && !what.contains("scope=") { "vars=opt".to_string() } else { what };
+            let what = if null_source && rule == "filter_pushdown" && !what.contains("scope=") && what != "renamed_by_with" { "expand_from_null".to_string() } else { what };
             // same number of rows, other values, and the plan carries them through a WITH projection:
             // NULLs lose their null-ness there depending on the chunk layout (C09-F3)
             let projects = plan2.as_ref().is_some_and(|p| has_projection(&p.root));
